@@ -483,15 +483,29 @@ class World(Sim):
             return None
         return await self._guard(inst.activate('10.0.1.1', self.now_ms()))
 
-    async def op_deactivate(self, inst_i, reason='deactivated'):
+    async def op_deactivate(self, inst_i, reason='deactivated', lost_reply=False):
         inst = self.instances.get(self._pick(self.inst_list, inst_i))
         if inst is None:
             return None
         if reason == 'activation_timeout' and inst.state != 'pending':
             reason = 'terminated'      # the monitor only reports an activation timeout for an instance that never activated
         state_before = inst.state
+        if lost_reply:
+            # the CALL commits in the database but its reply never reaches the driver (connection dropped after the commit);
+            # the caller logs the error and the next monitoring pass deactivates the instance again
+            db = inst.db
+            real = db.execute_and_fetchone
+
+            async def lossy(*a, **k):
+                await real(*a, **k)
+                raise ConnectionError('injected: reply to deactivate_instance lost after the commit')
+            db.execute_and_fetchone = lossy
+            try:
+                await self._guard(inst.deactivate(reason, self.now_ms()))
+            finally:
+                db.execute_and_fetchone = real
         r = await self._guard(inst.deactivate(reason, self.now_ms()))
-        r.update(instance=inst.name, reason=reason, instance_state_before=state_before)
+        r.update(instance=inst.name, reason=reason, instance_state_before=state_before, lost_reply=bool(lost_reply))
         return r
 
     async def op_mark_deleted(self, inst_i):
